@@ -216,6 +216,8 @@ type Conc struct {
 	// ArchVia: how the policy gets its architecture: "" = the exported variable (arch.X86_64, ...), "name" = what arch.GetInfo
 	// returns for the architecture's name, "default" = not set at all (Assemble resolves the host's; only when Arch is the host's)
 	ArchVia string
+	// Domain: the execution domain (personality) of the thread that compiles: "" or "PER_LINUX32"
+	Domain string
 	// Pad (SetPadTable): every name of the real table that the concretisation does not use. Groups that list every abstract
 	// syscall by name (and nothing else) list these too: the policy then names the architecture's whole syscall table, and
 	// "unlisted" events are numbers outside the table only
@@ -232,7 +234,7 @@ func (c *Conc) Describe() map[string]interface{} {
 		names = append(names, fmt.Sprintf("%s=%d", s.Name, s.Nr))
 	}
 	return map[string]interface{}{"arch": c.Arch.Name, "syscalls": names, "positions": c.Pos,
-		"hi_embedding": c.Hi.Name, "lo_embedding": c.Lo.Name, "little_endian": c.LE, "host_order": c.HostOrder, "arch_via": c.ArchVia, "padded_to_whole_table": len(c.Pad), "w": c.W}
+		"hi_embedding": c.Hi.Name, "lo_embedding": c.Lo.Name, "little_endian": c.LE, "host_order": c.HostOrder, "arch_via": c.ArchVia, "execution_domain": c.Domain, "padded_to_whole_table": len(c.Pad), "w": c.W}
 }
 
 func (c *Conc) Embed64(v int64) uint64 {
